@@ -65,15 +65,20 @@ def run(ctx):
             # final push((sig, -G)) and per-entry push((hash(msg,dst), pk))
             pushes = [s for s in ev.sites.values() if s.callee[0] == "Vec::<T, A>::push"]
             final = [s for s in pushes if any(x.op == "param" and x.a[1] == "sig" for x in subterms(s.args[1])) and any(x.op == "call" and B.cname(x) == "Neg::neg" for x in subterms(s.args[1]))]
-            entry = [s for s in pushes if any(x.op == "call" and B.cname(x) == "HashToPoint::hash_to_point" for x in subterms(s.args[1]))]
+            entry = F.entry_builders(P, f)
             ctx.ob("E5.equation", fk + "/final", len(final) == 1, "exactly one push of (sig, -G) after the loop (found %d)" % len(final), where=where(f))
-            ctx.ob("E5.equation", fk + "/entry", len(entry) == 1, "exactly one per-entry push of (hash_to_point(msg,dst), pk) (found %d)" % len(entry), where=where(f))
+            ctx.ob("E5.equation", fk + "/entry", len(entry) == 1, "exactly one per-entry construction of (hash_to_point(msg,dst), pk) (found %d: %s)" % (len(entry), [e["mode"] for e in entry]), where=where(f))
             if entry:
-                h = [x for x in subterms(entry[0].args[1]) if x.op == "call" and B.cname(x) == "HashToPoint::hash_to_point"][0]
+                h = [x for x in subterms(entry[0]["value"]) if x.op == "call" and B.cname(x) == "HashToPoint::hash_to_point"][0]
                 dstp = B.peel(h.a[1][1])
-                ctx.ob("E5.equation", fk + "/dst", dstp.op == "param" and dstp.a[1] == "dst", "per-entry hash uses the caller's tag unmodified: %s" % show(dstp, 3), where=where(f))
-            for h, ok, detail in F.loops_push_every_iteration(f, accept=lambda s: s.callee[0] == "Vec::<T, A>::push" and any(x.op == "call" and B.cname(x) == "HashToPoint::hash_to_point" for x in subterms(s.args[1]))):
-                ctx.ob("E4.loop", fk + "/every-entry", ok, "every iteration of the pair loop pushes its own (hash_to_point(msg,dst), pk) pairing input or leaves through Err: " + detail, where=where(f, h))
+                while dstp.op == "call" and B.cname(dstp) in ("AsRef::as_ref", "Deref::deref") and dstp.a[1]:
+                    dstp = B.peel(dstp.a[1][0])
+                is_dst = (dstp.op == "param" and dstp.a[1] == "dst") or (entry[0]["mode"] == "map-closure" and dstp.op in ("field", "deref", "param") and "dst" in show(dstp, 4))
+                ctx.ob("E5.equation", fk + "/dst", is_dst, "per-entry hash uses the caller's tag unmodified: %s" % show(dstp, 3), where=where(f))
+            for e in entry:
+                ctx.ob("E4.loop", fk + "/every-entry", e["every"], "every list entry yields its own (hash_to_point(msg,dst), pk) pairing input or an error (%s)" % e["mode"], where=where(e["fn"], e["bb"]))
+            if not entry:
+                ctx.ob("E4.loop", fk + "/every-entry", False, "no per-entry construction of pairing inputs found", where=where(f))
             F.check_no_dropping_adapters(ctx, "E7.adapters", P, [fk])
     # 2. pass-through chain: wrappers -> scheme trait methods
     for fk in ("Signature<C>::verify", "MultiSignature<C>::verify", "PublicKeyShare<C>::verify", "ProofOfPossession<C>::verify", "SignatureShare<C>::verify"):
